@@ -42,7 +42,7 @@ ORDER = {
     "mosaik/in_or_out_set.py": "C12 C11 C15 C03",
     "mosaik/proxies.py": "C14 C15 C16 C04 C02 C05",
     "mosaik/internal_util.py": "C03 C04 C02 C16 C05",
-    "mosaik/_debug.py": "C04 C02 C05 C09 C03",
+    "mosaik/_debug.py": "C04 C02 C05",
 }
 CMP = {ast.Lt: ("<", ["<="]), ast.LtE: ("<=", ["<"]), ast.Gt: (">", [">="]), ast.GtE: (">=", [">"]),
        ast.Eq: ("==", ["!="]), ast.NotEq: ("!=", ["=="]), ast.Is: ("is", ["is not"]), ast.IsNot: ("is not", ["is"]),
@@ -251,11 +251,21 @@ def phase_filter(sample, workers=8):
     print(f"survived the repository's suite: {surv} of {len(muts)}", flush=True)
 
 
+MAX_CHECKS = int(os.environ.get("MVF_AUTOMUT_MAX_CHECKS", "8"))
+
+
+def irrelevant(m):
+    """progress bars and informational log lines: outside every listed property"""
+    t = m["text"]
+    return "tqdm" in t or "logger.info" in t or "logger.debug" in t or "print_progress" in t
+
+
 def phase_checks():
     muts = load("mutants.json", [])
     filt = load("filter.json", {})
     done = load("checks.json", {})
-    todo = [m for m in muts if filt.get(m["id"], {}).get("result") == "survived" and m["id"] not in done]
+    todo = [m for m in muts if filt.get(m["id"], {}).get("result") == "survived" and m["id"] not in done
+            and not irrelevant(m)]
     print(f"{len(todo)} survivors of the suite to run the quick checks against", flush=True)
     wt = worktree("wt_checks")
     try:
@@ -263,7 +273,7 @@ def phase_checks():
             apply(wt, m)
             row = {}
             killed_by = None
-            for p in ORDER[m["file"]].split():
+            for p in ORDER[m["file"]].split()[:MAX_CHECKS]:
                 env = dict(os.environ, MVF_NO_EVIDENCE="1", MVF_REPO=wt)
                 try:
                     r = subprocess.run([os.path.join(VERIF, "check"), p, "quick"], env=env, capture_output=True,
@@ -294,6 +304,8 @@ def report():
     for m in muts:
         f = filt.get(m["id"], {}).get("result")
         c = chk.get(m["id"])
+        if irrelevant(m):
+            continue
         rows.append(dict(file=m["file"], line=m["line"], op=m["op"], old=m["old"], new=m["repl"], text=m["text"],
                          suite=f, killed_by=(c or {}).get("killed_by"),
                          rules=((c or {}).get("checks", {}).get((c or {}).get("killed_by") or "", {}) or {}).get("rules"),
